@@ -786,6 +786,15 @@ func (a *Agent) gatherCandidatesSrflxMapped(ctx context.Context, networkTypes []
 					continue
 				}
 
+				// The family of the mapped address decides the candidate's network type: do not
+				// publish a server reflexive candidate whose network type is not enabled.
+				if !networkTypeEnabled(networkTypes, c.NetworkType()) {
+					closeConnAndLog(currentConn, a.log, "external IP %s maps to a disabled network type %s",
+						mappedIP, c.NetworkType())
+
+					continue
+				}
+
 				if err := a.addCandidate(ctx, c, currentConn); err != nil {
 					if closeErr := c.close(); closeErr != nil {
 						a.log.Warnf("Failed to close candidate: %v", closeErr)
